@@ -374,7 +374,11 @@ func ForeignHello(rg *rand.Rand, sni string) ([]byte, []string) {
 		if maybe(10) { // an extra unknown name type before the host name
 			body = append(append([]byte{7}, vec16([]byte("zz"))...), body...)
 		}
-		add("sni", wire.ExtSNI, vec16(body))
+		if len(body) > 3+len(sni) {
+			add("exotic_sni", wire.ExtSNI, vec16(body))
+		} else {
+			add("sni", wire.ExtSNI, vec16(body))
+		}
 	}
 	groups := []uint16{0x001d, 0x0017, 0x0018}
 	if maybe(30) {
@@ -397,7 +401,7 @@ func ForeignHello(rg *rand.Rand, sni string) ([]byte, []string) {
 	if maybe(50) {
 		if maybe(20) { // status_request with a responder id and request extensions
 			rid := vec16(randBytes(rg, 1+rg.Intn(20)))
-			add("status_request", wire.ExtStatusRequest, append(append([]byte{1}, vec16(rid)...), vec16(randBytes(rg, rg.Intn(10)))...))
+			add("exotic_status_request", wire.ExtStatusRequest, append(append([]byte{1}, vec16(rid)...), vec16(randBytes(rg, rg.Intn(10)))...))
 		} else {
 			add("status_request", wire.ExtStatusRequest, []byte{1, 0, 0, 0, 0})
 		}
@@ -503,7 +507,7 @@ func ForeignHello(rg *rand.Rand, sni string) ([]byte, []string) {
 	suites = append(suites, 0xc02b, 0xc02f, 0xc02c, 0xc030, 0xcca9, 0xcca8, 0xc013, 0xc014, 0x009c, 0x009d, 0x002f, 0x0035)
 	body := be16(0x0303)
 	body = append(body, randBytes(rg, 32)...)
-	body = append(body, vec8(randBytes(rg, []int{0, 32}[rg.Intn(2)]))...)
+	body = append(body, vec8(randBytes(rg, 32))...)
 	body = append(body, vec16(u16s(suites...))...)
 	body = append(body, vec8([]byte{0})...)
 	body = append(body, vec16(exts)...)
